@@ -37,6 +37,15 @@ CHECKS = {
         note='Validity of every reconstructed sequence and equality of the final value with a re-parse are search results over runtime stacks and are NOT decided. Trusted: ' + TB,
         technique='symbolic path tables + sibling agreement between duplicated LR-step implementations in MIR',
         ref='§4 C05'),
+    'C06': dict(
+        level='other',
+        text='Post-processing order of repair sequences (strip trailing shifts, then de-duplicate, then sort) by dominance; the '
+             'ranking comparator as a table; no construction of an EOF insertion; neighbour-generation table incl. never '
+             'insert after delete; positive token costs asserted before parsing; the node-merging relation (eq table, Hash '
+             'subset); the two phases of the search and the sweep\'s cost filter.',
+        note='Minimality and completeness of the returned set need the exhaustive reference search and are NOT decided. Trusted: ' + TB,
+        technique='path-table extraction of comparator/neighbour/eq tables and dominance ordering of pipeline stages in MIR',
+        ref='§4 C06'),
     'C07': dict(
         level='other',
         text='Driver table with recovery on (one recover call, one error carrying its repairs, None iff repairs are empty, else '
@@ -55,6 +64,15 @@ CHECKS = {
         note='The span VALUES (e.g. zero-length for an empty production) are NOT decided. Trusted: ' + TB,
         technique='sibling agreement on canonicalised symbolic terms + exactly-once path counting in MIR',
         ref='§4 C08'),
+    'C09': dict(
+        level='other',
+        text='Rule selection: (longest, rule) replaced only under a STRICT comparison while rules are visited in ascending order '
+             'and matched at the position\'s start offset; applicability table of a rule in a start state; tiling (offset '
+             'advances by exactly the longest match and only if > 0, emitted lexeme = (token of the chosen rule, start, '
+             'longest), every error ends lexing); start-state stack operations per operation variant.',
+        note='What the regexes match and the id synchronisation sets are NOT decided. Trusted: regex crate; ' + TB,
+        technique='symbolic cycle tables of the lexing loops extracted from MIR (strictness/orientation of comparisons, provenance of emitted values)',
+        ref='§4 C09'),
     'C10': dict(
         level='other',
         text='One structural clause only: "numbered densely from zero, every index the API returns is in range". Fields of the '
